@@ -247,8 +247,8 @@ inductive Op where
 def step (s0 : SlotBelt) (op : Op) : SlotBelt × Res :=
   let s := { s0 with fired := [], newReady := [] }
   match op with
-  | .reservePut p => s.reservePut p
-  | .reserveGet p => s.reserveGet p
+  | .reservePut p => s.reservePutP p 0          -- `reserve_put()` is `reserve_put(priority=0)`: the queue is re-sorted every time
+  | .reserveGet p => s.reserveGetP p 0
   | .reservePutP p pr => s.reservePutP p pr
   | .reserveGetP p pr => s.reserveGetP p pr
   | .put p t x => s.put p t x
